@@ -90,7 +90,7 @@ SEMANTIC = ('postcondition not satisfied', 'precondition not satisfied', 'assert
             'decreases not satisfied', 'possible arithmetic underflow/overflow', 'possible division by zero',
             'unreachable', 'recommendation not met', 'loop invariant', 'could not prove termination', 'index out of bounds',
             'failed this', 'possible bit shift', 'constructed value may fail to meet its declared type invariant',
-            'cannot show', 'not satisfied', 'might not hold', 'may be out of range')
+            'cannot show', 'not satisfied', 'unable to prove', 'might not hold', 'may be out of range')
 UNDECIDED = ('Resource limit (rlimit) exceeded', 'rlimit', 'timed out', 'canceled')
 
 
